@@ -93,6 +93,8 @@ def run_check(pid, tier, seed):
     for k, v in acc.extra.items():
         if k not in ('cpu_ms', 'shards'):
             coverage.setdefault(k, v)
+    for k, v in acc.sets.items():
+        coverage['distinct_' + k] = len(v)
     coverage.update(cov_extra)
     path = report.write_evidence(pid, tier, seed, coverage, wall, n_new, getattr(drv, 'ASSUMPTIONS', []))
     report.validate_with_schema(path)
